@@ -343,6 +343,20 @@ impl<O, A> Operations<O, A> {
     }
 }
 ''')
+raw(r'''
+/// two operation batches with the same contents (what clone returns, for lawful element clones)
+pub open spec fn ops_same<O: Clone, A: Clone>(p: Operations<O, A>, q: Operations<O, A>) -> bool {
+    &&& p.x@.len() == q.x@.len() && p.a.values@.len() == q.a.values@.len() && p.b.values@.len() == q.b.values@.len()
+    &&& p.a.sources.table@ == q.a.sources.table@ && p.a.sources.target == q.a.sources.target
+    &&& p.b.sources.table@ == q.b.sources.table@ && p.b.sources.target == q.b.sources.target
+    &&& lawful_clone::<O>() ==> p.a.values@ == q.a.values@ && p.b.values@ == q.b.values@
+    &&& lawful_clone::<A>() ==> p.x@ == q.x@
+}
+''')
+group('impl<O: Clone, A: Clone> Clone for Operations<O, A>')
+fn(OPS, 'clone', trait='Clone', self_ty='Operations', status='P', props=['C08', 'C14'],
+   ensures=[('C08.operations-clone', 'ops_same(r, *self)')])
+endgroup()
 group('impl<O: Clone, A: Clone> Operations<O, A>')
 fn(OPS, 'new', self_ty='Operations', status='P', props=['C08', 'C05'],
    ensures=[('C05.operations-new-iff', 'r.is_some() <==> (x@.len() == a.sources.table@.len() && x@.len() == b.sources.table@.len())'),
